@@ -111,17 +111,20 @@ package node
 // constraints may adjust the request and the value handle but never talk to nodes
 //@ interface FieldPreConstraint.CheckFieldPreConstraints(r *FieldRequest, hnd *ValueHandle) (bool, error)
 //@   assigns *r, hnd.Val
-//@   ensures r.Write == old(r.Write)
+//@   ensures r.Write == old(r.Write) && r.Meta == old(r.Meta)
 //@ interface FieldPostConstraint.CheckFieldPostConstraints(r FieldRequest, hnd *ValueHandle) (bool, error)
 //@   assigns hnd.Val
 
 //@ func (self *Constraints) CheckFieldPreConstraints(r *FieldRequest, hnd *ValueHandle) (bool, error)
 //@   trusted
 //@   assigns *r, hnd.Val, self.compiled
-//@   ensures r.Write == old(r.Write)
+//@   ensures r.Write == old(r.Write) && r.Meta == old(r.Meta)
+// fieldPostChecks counts how often the field post-constraints (with-defaults, ...) were consulted
+//@ ghost var fieldPostChecks int
 //@ func (self *Constraints) CheckFieldPostConstraints(r FieldRequest, hnd *ValueHandle) (bool, error)
 //@   trusted
-//@   assigns hnd.Val, self.compiled
+//@   assigns hnd.Val, self.compiled, fieldPostChecks
+//@   ensures fieldPostChecks == old(fieldPostChecks) + 1
 
 // C05: a write vetoed by a pre-constraint (or failing one) issues no Field request, and the veto is what is returned
 //@ func (sel *Selection) set(r *FieldRequest, hnd *ValueHandle) error
@@ -330,3 +333,37 @@ package node
 //@   assigns nothing
 //@   loop 1 invariant -1 <= i && i < len(segs) && p != nil && j == pathLen(p) - pathLen(base) - 1 && isAncestor(base, p) && i <= j + 0
 //@   loop 1 decreases pathLen(p)
+
+// ---- C07: combining parameters gives the intersection: constraints are only ever added ------------------
+// AddConstraint appends: every constraint registered before stays registered (same order), the new one is last
+//@ func (self *Constraints) AddConstraint(id string, weight int, priority int, constraint interface{})
+//@   mode int
+//@   property C07
+//@   maypanic
+//@   requires self != nil
+//@   ensures len(self.entries) == old(len(self.entries)) + 1
+//@   ensures forall k int :: 0 <= k && k < old(len(self.entries)) ==> self.entries[k] == old(self.entries[k])
+//@   ensures self.entries[len(self.entries) - 1] != nil && self.entries[len(self.entries) - 1].constraint == constraint \
+//@           && self.entries[len(self.entries) - 1].priority == priority && self.entries[len(self.entries) - 1].weight == weight
+//@   ensures self.compiled == nil
+
+// a derived constraint set starts with everything the parent had
+//@ func NewConstraints(parent *Constraints) *Constraints
+//@   mode int
+//@   property C07
+//@   requires parent != nil
+//@   loop 1 invariant -1 <= rangeindex && rangeindex < len(parent.entries) && len(c.entries) == len(parent.entries) && c != parent
+//@   loop 1 invariant forall k int :: 0 <= k && k <= rangeindex ==> c.entries[k] == parent.entries[k]
+//@   ensures result != nil && len(result.entries) == len(parent.entries)
+//@   ensures forall k int :: 0 <= k && k < len(parent.entries) ==> result.entries[k] == parent.entries[k]
+
+// ---- C04/C07: reading a leaf -----------------------------------------------------------------------------
+// a read vetoed by a pre-constraint asks the node nothing; a successful read always passes through the
+// post-constraints (with-defaults=trim lives there), whatever the node answered
+//@ func (sel *Selection) get(r *FieldRequest, hnd *ValueHandle, useDefault bool) error
+//@   mode int
+//@   property C04 C07
+//@   requires sel != nil && sel.Constraints != nil && sel.Node != nil && r != nil && hnd != nil && r.Meta != nil && !r.Write
+//@   ensures (!proceed || constraintErr != nil) ==> result == constraintErr && fieldPostChecks == old(fieldPostChecks) && fieldWrites == old(fieldWrites)
+//@   ensures result == nil && proceed && constraintErr == nil ==> fieldPostChecks == old(fieldPostChecks) + 1
+//@   ensures fieldWrites == old(fieldWrites)
